@@ -32,7 +32,7 @@ type Profile struct {
 }
 
 var AllEdits = []string{"edit-content", "edit-content", "shift-boundary", "swap-contents", "add-file", "remove-file", "rename-file", "toggle-file", "toggle-file", "bump-nonce",
-	"edit-fingerprint", "rename-output", "add-edge", "add-edge-alias", "remove-edge", "reroute-alias", "retarget-alias"}
+	"edit-fingerprint", "rename-output", "add-edge", "add-edge-alias", "remove-edge", "reroute-alias", "retarget-alias", "toggle-execbit", "swap-output-roles"}
 var AllPerturbs = []string{"perturb-delete", "perturb-delete-parent", "perturb-truncate", "perturb-overwrite", "perturb-chmod", "perturb-stale-entry", "perturb-file-for-dir"}
 
 var pkgPool = []string{"", "a", "a/b", "ab", "c/d"}
@@ -50,6 +50,19 @@ func GenWS(t *rapid.T, p Profile) WS {
 	n := rapid.IntRange(1, p.MaxTargets).Draw(t, "ntargets")
 	for i := 0; i < n; i++ {
 		tg := Target{Pkg: rapid.SampledFrom(pkgPool).Draw(t, "pkg"), Name: fmt.Sprintf("t%d", i)}
+		// sometimes a target is named like a sub-package that has targets of its own (//a:b next to package a/b, //:a next to package a)
+		if rapid.IntRange(0, 5).Draw(t, "pkglike-name") == 0 {
+			want := map[string]string{"": "a", "a": "b", "c": "d"}[tg.Pkg]
+			taken := false
+			for _, o := range w.Targets {
+				if o.Pkg == tg.Pkg && o.Name == want {
+					taken = true
+				}
+			}
+			if want != "" && !taken {
+				tg.Name = want
+			}
+		}
 		// sources of the package (shared by the targets of that package)
 		for _, f := range []string{"top.txt", "src/a.txt", "src/b.txt", "src/c.txt", "src/deep/d.txt"} {
 			full := path.Join(tg.Pkg, f)
